@@ -118,7 +118,25 @@ int main()
                     if (!done) { ++bad; std::printf("PTC FAIL worker still running 2 s after terminate()\n"); std::fflush(stdout); std::_Exit(0); }
                     worker.join(); if (!ptc) ++bad;
                 }
-                std::printf("PTC %s repeats %d not-terminated %ld\n", bad == 0 ? "ok" : "FAIL", R, bad);
+                // conditions with an evaluation thread (period > 0) and a predicate that takes a while: terminate() from other threads at
+                // varying offsets (so that it lands while the evaluation thread is inside the predicate); once terminate() has returned,
+                // every eval() must be true, for good
+                long pbad = 0, polls = 0;
+                for (int r = 0; r < std::max(4, R / 25); ++r)
+                {
+                    const int fn_us = (r % 3 == 0) ? 0 : (r % 3 == 1 ? 3000 : 8000);
+                    ob::PlannerTerminationCondition ptc([fn_us] { if (fn_us) std::this_thread::sleep_for(std::chrono::microseconds(fn_us)); return false; }, 0.001);
+                    if (ptc.eval()) ++pbad;
+                    std::this_thread::sleep_for(std::chrono::microseconds(500 + 1700 * (r % 7)));
+                    std::vector<std::thread> ts; std::atomic<long> after_false{0};
+                    for (int t = 0; t < 1 + r % 3; ++t)
+                        ts.emplace_back([&]() { ptc.terminate(); for (int i = 0; i < 40; ++i) { if (!ptc.eval()) ++after_false; std::this_thread::sleep_for(std::chrono::microseconds(300)); } });
+                    for (auto &t : ts) t.join();
+                    polls += 40 * (long)ts.size();
+                    if (after_false > 0 || !ptc.eval()) { ++pbad; std::printf("PTC FAIL periodic condition (predicate %d us): eval() false in %ld polls after terminate() returned; final %d\n", fn_us, (long)after_false, ptc.eval() ? 1 : 0); }
+                }
+                bad += pbad;
+                std::printf("PTC %s repeats %d not-terminated %ld periodic-polls %ld\n", bad == 0 ? "ok" : "FAIL", R, bad, polls);
             }
             else if (op == "LOG")
             {
